@@ -5,12 +5,21 @@ from .anchors import anchors, callee_str, is_shared_write, is_link_load, receive
 from .facts import op_root, strip_generics
 
 
-def user_closure_call(c):
+def user_closure_call(c, _depth=0):
     """call of a caller-supplied closure: FnOnce/FnMut/Fn method on a type parameter"""
     cal = c.callee
-    if not cal or cal["kind"] != "param_trait_method":
+    if not cal:
         return False
-    return cal.get("trait") in ("std::ops::FnOnce", "std::ops::FnMut", "std::ops::Fn")
+    if cal["kind"] == "param_trait_method":
+        return cal.get("trait") in ("std::ops::FnOnce", "std::ops::FnMut", "std::ops::Fn")
+    # a nested closure of the calling function that only wraps the caller-supplied one (`helper(|| user(k, v))`, devirtualised when the
+    # helper was inlined): calling it is running the user's closure
+    if _depth < 3 and cal.get("kind") == "local":
+        body = c.body
+        tb = body.facts.by_id.get(c.resolved) if body is not None else None
+        if tb is not None and tb.kind == "Closure" and tb.id.startswith(body.id.split("::{closure")[0] + "::{closure"):
+            return any(user_closure_call(x, _depth + 1) for x in tb.calls if not tb.is_cleanup(x.b))
+    return False
 
 
 def user_code_call(c):
